@@ -26,9 +26,10 @@ import threading
 
 from .. import core, runner
 
-THEOREMS = ["ZI.Own.check_sound", "ZI.Own.safe_op", "ZI.Own.inv_step", "ZI.Detach.check_sound", "ZI.Detach.safe_store", "ZI.Detach.rel_step",
+THEOREMS = ["ZI.Own.check_sound", "ZI.Own.safe_op", "ZI.Own.inv_step", "ZI.Own.checkL_imp_check", "ZI.Own.lstep_count", "ZI.Own.checkL_balanced", "ZI.Own.C11_balanced",
+            "ZI.Own.leak_rejected", "ZI.Own.balanced_accepted", "ZI.Detach.check_sound", "ZI.Detach.safe_store", "ZI.Detach.rel_step",
             "ZI.Mutator.wipes_sound", "ZI.Mutator.post_sound", "ZI.Mutator.step_sound"]
-GEN_THEOREMS = ["own_lookup", "own_lookupAll", "own_subscriptions", "own_verify", "detach_lookup", "detach_lookupAll", "detach_subscriptions", "loops_snapshot",
+GEN_THEOREMS = ["own_subcache", "own_getcache", "own_lookup", "own_lookup1", "own_lookupAll", "own_subscriptions", "own_verify", "detach_lookup", "detach_lookupAll", "detach_subscriptions", "loops_snapshot",
                 "mutators_wipe"]
 EPS = ["lookup", "lookup1", "lookupAll", "subscriptions", "queryAdapter", "adapter_hook", "queryMultiAdapter"]
 
@@ -74,6 +75,8 @@ def scenarios(tier):
             L.append("stale-pre %s %s" % (fl, ep))
             L.append("stale-rebase %s %s" % (fl, ep))
             L.append("leak2 %s %s" % (fl, ep))
+            for who in ("provided", "required", "name"):
+                L.append("hashhook %s %s %s" % (fl, ep, who))
             if ep in ("queryAdapter", "adapter_hook", "queryMultiAdapter", "lookup"):
                 L.append("leak %s %s" % (fl, ep))
             if ep in ("lookup", "lookupAll", "subscriptions"):
